@@ -79,7 +79,7 @@ GRID_TEMPLATES = (
     'r = a < b <= c\\\n    != d', 'r = a and b and c\\\n    and d', 'r = a or b or c',
     'match s:\n    case [a, b, *c]: pass\n    case C(a, b, k=1,\n           m=2): pass\n    case {1: a, 2: b, **r}: pass\n    case a | b | c: pass',
     'if a:\n    x\n    y  # c\n\n    z\nelse:\n    w', 'try:\n    a\nexcept A: b\nexcept B as e:\n    c\nexcept C: d', 'def f[T, *U,\n      **V](): pass',
-    'x\ny; z\n# c\nw',
+    'x\ny; z\n# c\nw', 'with (a, b), c: pass', 'with (a, b) as x, (c), d: pass',
 )
 
 
